@@ -103,3 +103,43 @@ func monC10RestartAfterHandler(s *Stream, plan string) {
 		return "pass"
 	}))
 }
+
+// mon.c10.stale-upgrade-info: an operator's node keeps the upgrade-info.json of the last upgrade in its home for
+// ever (x/upgrade writes it when the old binary halts; nothing removes it).  Restarting at any later committed height
+// with that file present must bring the node up on its own database with the committed state, and it must go on like
+// a twin that was never stopped.  (A start that dies is attributed to this op by the in-flight marker.)
+func monC10StaleUpgradeInfo(s *Stream, plan string) {
+	name := "mon.c10.stale-upgrade-info name=" + plan
+	s.Inflight(name)
+	s.Emit(name, guard(func() string {
+		accts := rtAccts()
+		a, err := NewChain(dbm.NewMemDB(), tmpHome(), accts, 100000, nil)
+		if err != nil {
+			return "fail #genesis " + err.Error()
+		}
+		b, _ := NewChain(dbm.NewMemDB(), tmpHome(), accts, 100000, nil)
+		t := a.Time
+		for i := 0; i < 5; i++ {
+			t = t.Add(5 * time.Second)
+			runBlock(a, t, nil)
+			runBlock(b, t, nil)
+		}
+		if err := a.App.UpgradeKeeper.DumpUpgradeInfoToDisk(3, upgradetypes.Plan{Name: plan, Height: 3}); err != nil {
+			return "fail #dump-upgrade-info " + err.Error()
+		}
+		hash, height := a.App.LastCommitID().Hash, a.App.LastBlockHeight()
+		a = reopen(a)
+		if a.App.LastBlockHeight() != height || !bytes.Equal(a.App.LastCommitID().Hash, hash) {
+			return "fail #did-not-resume-at-the-committed-state"
+		}
+		for i := 0; i < 2; i++ {
+			t = t.Add(5 * time.Second)
+			ra, ha := runBlock(a, t, nil)
+			rb, hb := runBlock(b, t, nil)
+			if strings.Join(ra, "\n") != strings.Join(rb, "\n") || !bytes.Equal(ha, hb) {
+				return "fail #differs-from-uninterrupted-twin"
+			}
+		}
+		return "pass"
+	}))
+}
